@@ -2051,9 +2051,11 @@ public:
             >::type first_completion_event;
             if (handled)
             {
+                // the deferred and message queues are handled by the caller once the
+                // completion transitions are done, not inside the completion step
                 self->process_event_internal(
                     first_completion_event(),
-                    source | EVENT_SOURCE_DIRECT);
+                    source | EVENT_SOURCE_DIRECT | EVENT_SOURCE_DEFERRED | EVENT_SOURCE_MSG_QUEUE);
             }
         }
 
